@@ -159,3 +159,62 @@ Proof.
   rewrite nth_firstn_lt by lia.
   rewrite nth_skipn_add. f_equal. lia.
 Qed.
+
+(* ---- lists built with ++ : reads, writes and copies at a position given as a length ---- *)
+Lemma len_app {A} (a b : list A) : len (a ++ b) = len a + len b.
+Proof. unfold len. rewrite app_length. lia. Qed.
+Lemma len_cons {A} (x : A) (a : list A) : len (x :: a) = 1 + len a.
+Proof. unfold len. cbn [length]. lia. Qed.
+Lemma len_nil {A} : len (@nil A) = 0.
+Proof. reflexivity. Qed.
+Lemma len_repeatN {A} (x : A) n : len (repeatN x n) = n.
+Proof. unfold len. rewrite repeatN_length. lia. Qed.
+Lemma nthN_app_l (a b : bytes) i : i < len a -> nthN (a ++ b) i = nthN a i.
+Proof. unfold nthN, len. intros H. apply app_nth1. lia. Qed.
+Lemma nthN_app_r (a b : bytes) i : len a <= i -> nthN (a ++ b) i = nthN b (i - len a).
+Proof. unfold nthN, len. intros H. rewrite app_nth2 by lia. f_equal. lia. Qed.
+Lemma nthN_app_at (a b : bytes) x i : i = len a -> nthN (a ++ x :: b) i = x.
+Proof. intros ->. rewrite nthN_app_r by lia. rewrite N.sub_diag. reflexivity. Qed.
+Lemma upd_nat_app_at (a b : bytes) x v : upd_nat (a ++ x :: b) (length a) v = a ++ v :: b.
+Proof. induction a as [|h t IH]; cbn; [reflexivity|]. rewrite IH. reflexivity. Qed.
+Lemma upd_app_at (a b : bytes) x v i : i = len a -> upd (a ++ x :: b) i v = a ++ v :: b.
+Proof. intros ->. unfold upd, len. rewrite Nat2N.id. apply upd_nat_app_at. Qed.
+Lemma blit_nat_0 (r s : bytes) : blit_nat r 0 s = firstn (length r) s ++ skipn (length s) r.
+Proof.
+  revert s; induction r as [|h t IH]; intros s; cbn.
+  - rewrite skipn_nil. reflexivity.
+  - destruct s as [|x s]; cbn; [reflexivity|]. rewrite IH. reflexivity.
+Qed.
+Lemma blit_nat_app (a r s : bytes) : blit_nat (a ++ r) (length a) s = a ++ blit_nat r 0 s.
+Proof. induction a as [|h t IH]; cbn; [reflexivity|]. rewrite IH. reflexivity. Qed.
+(* copy(l[len a:], s) when s fits *)
+Lemma blit_app_fit (a r s : bytes) i : i = len a -> (length s <= length r)%nat ->
+  blit (a ++ r) i s = a ++ s ++ skipn (length s) r.
+Proof.
+  intros -> L. unfold blit, len. rewrite Nat2N.id, blit_nat_app, blit_nat_0.
+  rewrite firstn_all2 by lia. reflexivity.
+Qed.
+(* copy(l[len a:], s) when s is at least as long as the room *)
+Lemma blit_app_over (a r s : bytes) i : i = len a -> (length r <= length s)%nat ->
+  blit (a ++ r) i s = a ++ firstn (length r) s.
+Proof.
+  intros -> L. unfold blit, len. rewrite Nat2N.id, blit_nat_app, blit_nat_0.
+  rewrite skipn_all2 by lia. rewrite app_nil_r. reflexivity.
+Qed.
+Lemma slice_app_l (a b : bytes) j : j = len a -> slice (a ++ b) 0 j = Ok a.
+Proof.
+  intros ->. unfold slice. rewrite len_app. replace ((0 <=? len a) && (len a <=? len a + len b)) with true
+    by (symmetry; apply andb_true_intro; split; apply N.leb_le; lia).
+  rewrite N.sub_0_r. cbn [N.to_nat skipn]. unfold len. rewrite Nat2N.id.
+  rewrite firstn_app, Nat.sub_diag, firstn_all. cbn [firstn]. rewrite app_nil_r. reflexivity.
+Qed.
+Lemma slice_app_r (a b : bytes) i j : i = len a -> j = len a + len b -> slice (a ++ b) i j = Ok b.
+Proof.
+  intros -> ->. unfold slice. rewrite len_app.
+  replace ((len a <=? len a + len b) && (len a + len b <=? len a + len b)) with true
+    by (symmetry; apply andb_true_intro; split; apply N.leb_le; lia).
+  replace (len a + len b - len a) with (len b) by lia. unfold len. rewrite !Nat2N.id.
+  rewrite skipn_app, skipn_all, Nat.sub_diag. cbn [skipn app]. rewrite firstn_all. reflexivity.
+Qed.
+Lemma is_bytes_app (a b : bytes) : is_bytes (a ++ b) <-> is_bytes a /\ is_bytes b.
+Proof. unfold is_bytes. apply Forall_app. Qed.
